@@ -14,6 +14,15 @@ CHECKS = {
     note='Trusted: clang lowering to IR, irdump, the interpreter (checks/absint.py, lin.py) and the contract '
          'in checks/common.py (SLINE). Undecided: reference-editor equality, screen equivalence, history order.'),
 }
+CHECKS['C03'] = dict(
+    category='other', design_ref='DESIGN.md 5/C03',
+    technique='abstract interpretation over LLVM IR (linear-inequality domain, contracts with closed-form postconditions)',
+    text='Static proof obligations for every function of the C ring, the ring counter, igris::ring<T> and cyclic_buffer<T>: '
+         'indices stay in [0,size), every buffer access is in bounds, ring size equals buffer size, empty/full/avail/room '
+         'equal their closed forms, refusal leaves the state unchanged, getc returns -1 or 0..255, index fix-up is the '
+         'mathematical modulo on one wrap either side. For all sizes and states; FIFO/lossless over histories is not decided.',
+    note='Trusted: clang lowering, irdump, checks/absint.py + lin.py, the contracts in checks/c03.py. Assumes size <= 2^30, '
+         'bulk moves with bias <= size, non-aliasing parameters.')
 NA_REASON = 'check not built yet (work in progress; see DESIGN.md section 9)'
 
 m = {"version": 1,
